@@ -230,6 +230,10 @@ class Evaluator:
                 t = is_true(cc)
                 out = (z3.If(t, rr[0], out[0]), z3.If(t, rr[1], out[1]))
             return out
+        if isinstance(node, (A.Exists, A.NotExists)):
+            sub = self.query(node.query, outer=(rel, row))
+            any_row = z3.Or([p for p, _ in sub.rows]) if sub.rows else FALSE
+            return b2c(FALSE, any_row if isinstance(node, A.Exists) else z3.Not(any_row))
         if isinstance(node, A.Select):
             sub = self.query(node, outer=(rel, row))
             if sub.width() != 1:
